@@ -56,6 +56,8 @@ RAW_SNIPPETS = [
     # GNU named variadic parameter
     ["#define SUMN(x, rest...) (x + rest + 0)", "#if SUMN(V + 0, 2) > 2", "int raw@_a;", "#else", "int raw@_b;", "#endif",
      "#if SUMN(W + 0, 1) == 1 || defined(C)", "int raw@_c;", "#endif", "#undef SUMN"],
+    # __COUNTER__ is not a macro the SUT knows: an ordinary unknown identifier (0) in every translation unit
+    ["#if __COUNTER__ == 0", "int raw@_a;", "#else", "int raw@_b;", "#endif", "#if defined(__COUNTER__)", "int raw@_c;", "#endif"],
     # nested use of a function-like and an object-like macro
     ["#define TWICE(x) ((x) + (x))", "#define BASE (V + 1)", "#if TWICE(BASE) > 4", "int raw@_a;", "#endif",
      "#if TWICE(TWICE(W)) == 8", "int raw@_b;", "#endif", "#undef BASE", "#undef TWICE"],
@@ -193,8 +195,9 @@ def draw_cfg(r, profile):
         "p_undef_hdr": r.choice([0.0, 0.15, 0.3]),
         "p_eol": r.choice([0.0, 0.0, 0.15, 0.4]),
         "p_coincide": r.choice([0.0, 0.15, 0.3]),
+        "p_cond_once": r.choice([0.0, 0.1, 0.25]),
         "p_variant_twin": r.choice([0.0, 0.2, 0.5]),
-        "hdr_name_style": r.choice(["plain", "plain", "odd"]),
+        "hdr_name_style": r.choice(["plain", "plain", "odd", "std"]),
         "p_forced_rel": r.choice([0.0, 0.5]),
         "cpp": r.random() < 0.3,
     }
@@ -395,7 +398,7 @@ class Gen:
                     m = r.choice(SRC_MACROS + SRC_MACROS + FLAG_MACROS + NUM_MACROS)
                     out.append(["cond", [["ifdef", m, [["code", 1]]], ["else", None, [["code", 1]]]]])
             elif k < 0.30 + pd + pi + 0.06:
-                out.append(r.choice([["blank"], ["comment"], ["bcomment", r.randint(0, 2)],
+                out.append(r.choice([["blank"], ["blank", "ff"], ["blank", "vt"], ["comment"], ["bcomment", r.randint(0, 2)],
                                      ["directive", r.choice(BENIGN_PRAGMAS)]]))
             elif self.cfg.get("p_raw") and k < 0.30 + pd + pi + 0.09 + self.cfg["p_raw"]:
                 self.uid += 1
@@ -443,6 +446,12 @@ class Gen:
         for i in range(cfg["n_hdr"]):
             ext = ".hpp" if (cfg["cpp"] and r.random() < 0.3) else ".h"
             stem = f"h{i}"
+            if cfg.get("hdr_name_style") == "std" and not cfg.get("fortran"):
+                # a project's own header that carries the name of a standard one (compat layers, libc, embedded)
+                stem, ext = r.choice([("string", ".h"), ("stdio", ".h"), ("math", ".h"), ("vector", ""), ("cstdio", ""),
+                                      ("memory", ""), ("stdint", ".h")])
+                if any(n == stem + ext for n in names):
+                    stem, ext = f"h{i}", ".h"
             if cfg.get("hdr_name_style") == "odd":
                 stem = r.choice([f"h{i}", f"h-{i}", f"h{i}_v2", f"h{i}.inc", f"{i}h"])
                 if r.random() < 0.3 and not cfg.get("fortran"):
@@ -508,6 +517,9 @@ class Gen:
                     ps = f"PASS_{tag}"
                     items = [["cond", [["ifndef", ps, [["define", ps, None]] + body + [["include", "q", h["name"]], ["code", 1]]],
                                        ["else", None, [["code", 1]] + self.items(1, later, [2])]]]]
+                elif r.random() < cfg.get("p_cond_once", 0.0):
+                    # the MSVC/Boost idiom: #pragma once only under a condition (inactive for some platforms)
+                    items = [["cond", [[r.choice(["ifdef", "ifndef"]), r.choice(FLAG_MACROS + NUM_MACROS), [["once"]]]]]] + body
                 elif k < cfg["p_once"]:
                     items = [["once"]] + body
                 elif k < cfg["p_once"] + cfg["p_guard"]:
@@ -516,6 +528,9 @@ class Gen:
                         items = [["cond", [["if", ["ndef", g], [["define", g, None]] + body]]]]
                     else:
                         items = [["cond", [["ifndef", g, [["define", g, None]] + body]]]]
+                    if r.random() < 0.25:
+                        # a guard whose #else branch does something on re-inclusion
+                        items[0][1].append(["else", None, [["code", 1]] + self.items(1, later, [2])])
                 else:
                     items = body
                 files[path] = {"lang": "c", "items": items}
@@ -643,6 +658,10 @@ class Gen:
         if base is not None and r.random() < cfg.get("p_uniform", 0.0):
             sem = dict(base)
             sem["src"] = src
+            if r.random() < 0.3:
+                # the same set of -D options in another order
+                sem["defs"] = list(base["defs"])
+                r.shuffle(sem["defs"])
             # a forced include given by bare name must not exist beside *this* main file either (CBI looks
             # there first, a compiler looks in its working directory first)
             here = os.path.dirname(src)
@@ -679,6 +698,12 @@ class Gen:
             elif k < 0.5:
                 # the same number in the spellings C allows
                 defs.append(f"{m}=" + r.choice(["2", "2", "0x2", "02", "2U", "2L", "2UL"]))
+        if cfg["profile"] in ("c08", "c14") and r.random() < 0.12:
+            # one macro given twice with different values, in either order (model-free engines only: a compiler
+            # warns about it and takes the last one, the SUT documents that the first one wins)
+            two = [f"W={r.choice([0, 1])}", "W=2"]
+            r.shuffle(two)
+            defs = [d for d in defs if not d.startswith("W")] + two
         incs = []
         for d in r.sample(inc_pool, r.randint(0, min(3, len(inc_pool)))):
             incs.append(["isystem" if r.random() < cfg["p_isystem"] else "I", d])
